@@ -26,14 +26,18 @@ MODELLED_NOT_VERIFIED = [
     "NexmlWriter._write_format_section, _NexmlCharBlockParser, _link_blocks/_get_block_title/_get_taxon_namespace; tied to the code "
     "by per-case comparison of written text and read-back content; the symbol tables are regenerated from charstatemodel.py",
 ]
-EXPLANATION = ("Theorems (Props/C09.lean): symbol tables (symbol_roundtrip, symbol_case_insensitive, symbol_synonyms, ambiguity_token_roundtrip); "
-               "FORMAT (format_roundtrip for the fixed types, format_standard_roundtrip for ARBITRARY custom symbol strings); NEXUS rows and whole "
-               "sequential matrix on both entry paths (cells_roundtrip, nexus_matrix_roundtrip), MATCHCHAR rows (matchchar_row_roundtrip), interleaved "
-               "line step (nexus_interleaved_roundtrip_partial: page fold missing); whole-file PHYLIP relaxed and strict for every admissible "
-               "label/option pair (phylip_relaxed_roundtrip, phylip_strict_roundtrip) and whole-file FASTA with wrapping (fasta_roundtrip); NeXML "
-               "columns (nexml_columns_partial, nexml_matrix_columns); TITLE/LINK (assignTitles_distinct, title_link_resolves); conversion chains "
-               "(convert_fasta_phylip_roundtrip, convert_nexus_phylip_fasta_roundtrip). Correspondence/oracle only: interleaved whole files, "
-               "continuous values, NeXML XML text, tree lists, custom-alphabet symbol lookup beyond the generator's sets.")
+EXPLANATION = ("Theorems (Props/C09.lean): symbol tables (symbol_roundtrip, symbol_case_insensitive, symbol_synonyms, ambiguity_token_roundtrip) and, for "
+               "ANY custom standard symbol set unchanged by upper-casing, standard_symbols_denote_themselves; FORMAT (format_roundtrip for the fixed "
+               "types, format_standard_roundtrip: parsing half for arbitrary such symbol strings); NEXUS rows and whole matrix, sequential on both "
+               "entry paths (cells_roundtrip, nexus_matrix_roundtrip) and interleaved in pages of any widths (nexus_interleaved_matrix_roundtrip); "
+               "MATCHCHAR at row level with the first sequence given (matchchar_row_roundtrip); whole-file PHYLIP: relaxed for labels written "
+               "without blanks under every underscore option pair (phylip_relaxed_roundtrip), relaxed with multispace delimiter for labels with "
+               "single inner blanks (phylip_multispace_roundtrip), strict (phylip_strict_roundtrip); whole-file FASTA with wrapping "
+               "(fasta_roundtrip); NeXML columns (nexml_columns_partial, nexml_matrix_columns: abstract document, identity column ids); TITLE/LINK "
+               "(assignTitles_distinct, title_link_resolves); conversion chains as compositions of the above for symbol-only rows "
+               "(convert_*). Whole-file theorems assume at least one row and rows of one positive length. Correspondence/oracle only: match "
+               "characters and row reordering in whole matrices, PHYLIP interleaved paging, continuous values, NeXML XML text and otus "
+               "references, tree lists, construction routes (from_dict/concatenate/export), lower-case custom symbols.")
 
 NS = "{http://www.nexml.org/2009}"
 
@@ -642,8 +646,8 @@ def report(ctx, kind, what, spec, got=None):
 def failure_kind(spec, fmt):
     if spec.get("equate"):
         return "equate:" + fmt
-    if spec["dt"] == "standard" and spec["route"]["via"] in ("concatenate", "export"):
-        return "foreign-states:" + fmt      # cells hold states of an alphabet the new matrix does not list
+    if spec["dt"] == "standard" and spec["route"]["via"] == "concatenate":
+        return "foreign-states:" + fmt      # cells hold states of the parts' alphabets, which the new matrix does not list
     if spec.get("has_multi"):
         return "multistate:" + fmt
     return "roundtrip:" + fmt
@@ -818,8 +822,8 @@ def exec_matrix(ctx, dendropy, spec, pending):
     # ---- model side
     if dt == "continuous":
         return
-    # concatenate / copy construction give a standard matrix a fresh default alphabet
-    dtf_w = dt_field(dt, None if via in ("concatenate", "export") else spec.get("std"))
+    # concatenate gives a standard matrix a fresh default alphabet; a copy (export_character_indices) keeps its source's
+    dtf_w = dt_field(dt, None if via == "concatenate" else spec.get("std"))
     dtf = dt_field(dt, spec.get("std"))        # PHYLIP / FASTA are read with the alphabet handed to the reader
     labels = [l for l, _ in ref]
     sym_only = all(isinstance(c, str) for _, cells in ref for c in cells)
@@ -859,9 +863,6 @@ def exec_matrix(ctx, dendropy, spec, pending):
                 sym_of = {v: states.get(k) for k, v in sids.items()}
                 line = "nexmlread %s %s" % (",".join(str(idx[c]) for c in chars) or "-",
                                             " ".join(",".join("%d.%d" % (idx.get(c, 99999), sids[s]) for c, s in cells) or "-" for _, cells in rows))
-                want = []
-                for _, cells in got:
-                    want.append(",".join("_" if c is None else "?" for c in cells) or "-")
                 pending.append((line, spec, (got, sym_of), "nexmlread"))
 
 
@@ -1004,7 +1005,7 @@ def gen_matrix_spec(rng, dt=None, via=None, fmt=None, dims=None):
             c = [f for f in c if f != "nexml"]
         if not all(nexml_safe(l) for l in labels):
             c = [f for f in c if f != "nexml"]
-        if dt == "standard" and via in ("concatenate", "export"):
+        if dt == "standard" and via == "concatenate":
             c = [f for f in c if f not in ("nexml", "nexus")]
         if not labels_admissible("phylip", {}, {}, labels):
             c = [f for f in c if f != "phylip"]
@@ -1341,6 +1342,10 @@ def exec_reject(ctx, dendropy, spec, pending):
             m = cls.get(data=text, schema=fmt, **spec.get("kw", {}))
         got = content(m)
         impl = "ok"
+    except (TypeError, AttributeError, IndexError, KeyError, AssertionError, RecursionError, UnboundLocalError) as e:
+        # not a refusal: an accident inside the reader.  The model says "err" (refused); this is reported as a disagreement
+        got, impl = None, "crash"
+        ctx.count("reject_crash:%s/%s/%s" % (fmt, spec["defect"], type(e).__name__))
     except Exception:
         got, impl = None, "err"
     if spec["defect"] == "none" and impl != "ok":
@@ -1351,13 +1356,13 @@ def exec_reject(ctx, dendropy, spec, pending):
                                             0 if p["simple"] else len(p["taxa"]),
                                             " ".join(hex6(l) for l in ([] if p["simple"] else p["taxa"])),
                                             " ".join("%s:%s" % (hex6(l), hex6(t)) for l, t in p["rows"]))
-        pending.append((line, spec, "err" if got is None else "ok %s %s" % (dt, rows_field(got)), "nxread"))
+        pending.append((line, spec, impl if got is None else "ok %s %s" % (dt, rows_field(got)), "nxread"))
     elif fmt == "phylip":
         line = "phread %s %d 0 0 0 %s" % (dt, 1 if spec["kw"].get("strict") else 0,
                                           " ".join(hex6(x) for x in re.split(r"\r\n|\n|\r", text)))
-        pending.append((line, spec, "err" if got is None else "ok " + rows_field(got), "phread"))
+        pending.append((line, spec, impl if got is None else "ok " + rows_field(got), "phread"))
     elif fmt == "fasta":
-        pending.append(("faread %s %s" % (dt, hex6(text)), spec, "err" if got is None else "ok " + rows_field(got), "faread"))
+        pending.append(("faread %s %s" % (dt, hex6(text)), spec, impl if got is None else "ok " + rows_field(got), "faread"))
     else:
         chars, states, rows = nexml_abstract(text)[0]
         idx = {c: i for i, c in enumerate(chars)}
@@ -1396,7 +1401,7 @@ def alphabet_sizes(dendropy):
 def run(ctx):
     dendropy = __import__("dendropy")
     rng = ctx.rng
-    ctx.set_budget(40, 700)
+    ctx.set_budget(35, 700)
     pending = []
     sizes0 = alphabet_sizes(dendropy)
     check_alphabets(ctx, dendropy, pending)
